@@ -118,8 +118,10 @@ func rlBuild(st storer.EncodedObjectStorer, row *rlRow, pseq [][]int, tm []int) 
 	h := map[string]plumbing.Hash{"zz": rlMissing}
 	h["bA"] = putBlob(st, "A\n")
 	h["bB"] = putBlob(st, "B\n")
-	h["sA"] = putTree(st, []object.TreeEntry{{Name: "g", Mode: filemode.Regular, Hash: h["bA"]}})
-	h["sB"] = putTree(st, []object.TreeEntry{{Name: "g", Mode: filemode.Regular, Hash: h["bB"]}})
+	h["bC"] = putBlob(st, "C\n")
+	// two-entry subtrees: g differs, h is the same blob in both (see SubBlobs in RevList.tla)
+	h["sA"] = putTree(st, []object.TreeEntry{{Name: "g", Mode: filemode.Regular, Hash: h["bA"]}, {Name: "h", Mode: filemode.Regular, Hash: h["bC"]}})
+	h["sB"] = putTree(st, []object.TreeEntry{{Name: "g", Mode: filemode.Regular, Hash: h["bB"]}, {Name: "h", Mode: filemode.Regular, Hash: h["bC"]}})
 	for name, d := range rlRoots {
 		es := []object.TreeEntry{{Name: "f", Mode: filemode.Regular, Hash: h[d[0]]}}
 		if d[1] != "" {
